@@ -20,6 +20,9 @@ def first_occurrence_order(records):
     return order
 
 
+VETERANS = {}
+
+
 def battery(run, minecraft, C, utility, tag, pair_stride=1, rng=None,
             n_triples=0):
     """All table and order checks against the current record list."""
@@ -81,6 +84,44 @@ def battery(run, minecraft, C, utility, tag, pair_stride=1, rng=None,
                'duplicate-free projection of the records',
                {'len_got': len(got), 'len_expected': len(exp),
                 'first_differences': diff})
+
+    # ---- context objects that were in use before the tables changed ----------
+    # (a Connection's context lives as long as the connection object)
+    if not VETERANS:
+        for p in order:
+            c = C.ConnectionContext(protocol_version=p)
+            c.protocol_later_eq(order[len(order) // 2])     # it has been used
+            c.protocol_in_range(order[0], order[-1])
+            VETERANS[p] = c
+    elif tag != 'static':
+        vet = 0
+        for p, c in VETERANS.items():
+            if p not in pos or not run.mine(pos[p]):
+                continue
+            for q in (order[max(0, pos[p] - 1)], p,
+                      order[min(len(order) - 1, pos[p] + 1)],
+                      order[(pos[p] * 7) % len(order)]):
+                e, eq = pos[p] < pos[q], p == q
+                try:
+                    got = (c.protocol_earlier(q), c.protocol_earlier_eq(q),
+                           c.protocol_later(q), c.protocol_later_eq(q),
+                           c.protocol_in_range(q, order[-1]))
+                except Exception as ex:
+                    got = repr(ex)
+                vet += 1
+                exp = (e, e or eq, (not e) and not eq, not e,
+                       pos[q] <= pos[p] < pos[order[-1]])
+                if got != exp:
+                    tv('order/context-in-use-before-rebuild', 'a context '
+                       'object that had been used before the tables were '
+                       'rebuilt disagrees with the rebuilt order',
+                       {'context': p, 'other': q, 'got': got,
+                        'expected': exp})
+                    break
+            else:
+                continue
+            break
+        run.count('veteran_context_comparisons', vet)
 
     # ---- pairs -------------------------------------------------------------
     ctxs = {p: C.ConnectionContext(protocol_version=p) for p in order}
@@ -230,9 +271,18 @@ def run(run):
         records = minecraft.KNOWN_MINECRAFT_VERSION_RECORDS
         for step in range(rng.randrange(1, 7)):
             fresh_counter[0] += 1
-            kind = rng.choice(('fresh', 'fresh', 'dup', 'pre', 'pre-dup'))
+            kind = rng.choice(('fresh', 'fresh', 'dup', 'pre', 'pre-dup',
+                               'dup-release'))
             existing = [r.protocol for r in records]
-            if kind == 'fresh':
+            forced_shape = None
+            if kind == 'dup-release':
+                # a further release-style name for the number of an *older*
+                # release (a late patch release that kept the protocol)
+                rel = list(minecraft.RELEASE_PROTOCOL_VERSIONS)
+                proto = rng.choice(rel[:-1])
+                forced_shape = 'release'
+                run.count('extensions.second_name_for_an_older_release')
+            elif kind == 'fresh':
                 proto = max(p for p in existing if not p & (1 << 30)) + \
                     rng.randrange(1, 5)
             elif kind == 'dup':
@@ -242,12 +292,14 @@ def run(run):
             else:
                 pres = [p for p in existing if p & (1 << 30)]
                 proto = rng.choice(pres)
-            shape = rng.choice(('release', 'snapshot', 'pre', 'rc'))
+            shape = forced_shape or rng.choice(('release', 'snapshot', 'pre',
+                                                'rc'))
             vid = {'release': '9.%d.%d' % (h, fresh_counter[0]),
                    'snapshot': '9%dw%02dz%d' % (h % 10, step, fresh_counter[0]),
                    'pre': '9.%d.%d-pre1' % (h, fresh_counter[0]),
                    'rc': '9.%d-rc%d' % (h, fresh_counter[0])}[shape]
-            rec = minecraft.Version(vid, proto, rng.random() < 0.6)
+            rec = minecraft.Version(vid, proto, rng.random() < 0.6 or
+                                    forced_shape is not None)
             where = rng.choice(('append', 'append', 'insert'))
             if where == 'append' or kind == 'fresh':
                 records.append(rec)
@@ -288,4 +340,6 @@ def run(run):
                     'earlier': utility.protocol_earlier(754, (1 << 30) | 5)})
     run.require('pairs_checked', 30000)
     run.require('histories', 10)
+    run.require('veteran_context_comparisons', 100)
+    run.require('extensions.second_name_for_an_older_release', 2)
     run.require('table_comparisons', 50)
